@@ -47,7 +47,7 @@ def m(pat, s, b):
 
 def unwrap(s):
     """Drop value-preserving wrappers: construction of a matrix from one expression."""
-    while isinstance(s, tuple) and len(s) == 2 and isinstance(s[0], str) and s[0].startswith('new:Eigen::Matrix<'):
+    while isinstance(s, tuple) and len(s) == 2 and isinstance(s[0], str) and (s[0].startswith('new:Eigen::Matrix<') or (s[0].startswith('new:std::') and 'iterator' in s[0])):
         s = s[1]
     return s
 
